@@ -270,7 +270,30 @@ func copyVal(v value) value {
 }
 
 func load(addr *value) value   { return copyVal(*addr) }
-func store(addr *value, v value) { *addr = copyVal(v) }
+// store copies v into the slot. Structs and arrays are copied IN PLACE, element by element, as Go does:
+// a pointer to a field or element taken before the assignment (go/ssa emits "t = &b.f; *b = T{}; *t = x"
+// for "*b = T{f: x}") still points into the variable afterwards.
+func store(addr *value, v value) {
+	switch src := v.(type) {
+	case structV:
+		if dst, ok := (*addr).(structV); ok && len(dst) == len(src) {
+			for i := range src {
+				store(&dst[i], src[i])
+			}
+			return
+		}
+	case arrayV:
+		if dst, ok := (*addr).(arrayV); ok && len(dst) == len(src) {
+			// the source may alias the destination (a = a): copy first
+			tmp := copyVal(src).(arrayV)
+			for i := range tmp {
+				store(&dst[i], tmp[i])
+			}
+			return
+		}
+	}
+	*addr = copyVal(v)
+}
 
 // equalsT builds the term for x == y under Go semantics for type t.
 // It panics with a target panic on incomparable dynamic types.
